@@ -227,6 +227,25 @@ func Open(dir string, opts ...walOpt) (*WAL, error) {
 	// don't need to jump through the mutateState hoops yet!
 	w.s.Store(&newState)
 
+	if recoveredTail {
+		// If we crashed (or were closed) after an append sealed the tail but
+		// before the rotation it triggered was committed, the recovered tail is
+		// already sealed. Complete that rotation now, otherwise every append
+		// would fail with ErrSealed forever.
+		sealed, indexStart, err := newState.tail.Sealed()
+		if err != nil {
+			return nil, err
+		}
+		if sealed {
+			w.writeMu.Lock()
+			err := w.rotateSegmentLocked(indexStart)
+			w.writeMu.Unlock()
+			if err != nil {
+				return nil, err
+			}
+		}
+	}
+
 	// Delete any unused segment files left over after a crash.
 	w.deleteSegments(toDelete)
 
